@@ -881,6 +881,10 @@ class Body:
                 s = e.strip() if e.k in ("ref", "deref") else e
                 if s.k == "agg" and s.x.get("ak") in ("tuple", "adt", "closure") and el["f"] < len(s.a) and (s.x.get("ak") != "adt" or "variant" not in el or s.x.get("variant") == el.get("variant")):
                     e = s.a[el["f"]]
+                elif s.k == "phi" and s.a and all(c.k == "agg" and c.x.get("ak") == "tuple" and el["f"] < len(c.a) for c in s.a):
+                    # a component of a join of tuples is the join of the components
+                    parts = [c.a[el["f"]] for c in s.a]
+                    e = parts[0] if len(parts) == 1 else Expr("phi", parts, l=s.x.get("l", -1), name=s.x.get("name", "join"))
                 else:
                     e = Expr("field", [e], name=str(el.get("name", el["f"])), adt=el.get("adt", ""), idx=el["f"], ty=el.get("ty", ""))
             elif "index" in el:
